@@ -51,6 +51,11 @@ func codecBody(r *rng) ([]byte, string) {
 	case 4:
 		return bytes.Repeat([]byte("abcdefgh"), 1+r.intn(2000)), "repetitive"
 	case 5:
+		if r.chance(25) {
+			// a block whose length prefix looks like the start of another container format (snappy: varint 895 =
+			// ff 06, then 00 00 = the chunk header of the framing format)
+			return make([]byte, 895), "zeros-895"
+		}
 		return make([]byte, 1+r.intn(3000)), "zeros"
 	case 6:
 		return make([]byte, 100000+r.intn(400000)), "zeros-huge"
